@@ -2,7 +2,7 @@
 # tools/seeded_eval.sh <seed-dir-name> <property> [<check-props...>]
 # confirms a seeded change (demo fails with it / passes without, suite green) and runs our checks against it
 ID=$1; PROP=$2; shift 2; CHECKS="$PROP $@"
-W=/tmp/seed_$ID
+W=${W:-/tmp/seed_$ID}
 OUT=/verif/seeded/$ID
 mkdir -p $OUT
 cp $W/patch.diff $OUT/patch.diff; cp $W/demo.py $OUT/demo.py
